@@ -429,7 +429,7 @@ theorem C17_accepted_ws (c : WsCase) (h : wsViolations c = []) :
     c.res = .reject ∨
     (c.res = .ok ∧ (c.handshake = 101 →
       c.messagesWF = true ∧ c.closeReasonUTF8 = true ∧ c.close ≠ .proto ∧ (∀ k, c.close = .code k → validCloseCode k = true) ∧
-      (c.grpcws = true → c.fin = .wait → c.close = .code 1000 → c.lastIsTrailer = true) ∧
+      (c.grpcws = true → c.fin = .wait → c.clientInterfered = false → c.close = .code 1000 → c.lastIsTrailer = true) ∧
       (wsMustReportInvalid c = true →
         (c.close = .code 1001 ∧ c.reasonCode = some "InvalidArgument") ∨ c.close = .code 1007 ∨ c.close = .code 1003))) := by
   unfold wsViolations at h
@@ -460,11 +460,11 @@ theorem C17_accepted_ws (c : WsCase) (h : wsViolations c = []) :
       cases hv : validCloseCode k with
       | true => rfl
       | false => simp [hv] at h3
-    have e5 : c.grpcws = true → c.fin = .wait → c.close = .code 1000 → c.lastIsTrailer = true := by
-      intro a b d
+    have e5 : c.grpcws = true → c.fin = .wait → c.clientInterfered = false → c.close = .code 1000 → c.lastIsTrailer = true := by
+      intro a b ci d
       cases hx : c.lastIsTrailer with
       | true => rfl
-      | false => simp [a, b, d, hx] at h4
+      | false => simp [a, b, ci, d, hx] at h4
     have e6 : wsMustReportInvalid c = true →
         (c.close = .code 1001 ∧ c.reasonCode = some "InvalidArgument") ∨ c.close = .code 1007 ∨ c.close = .code 1003 := by
       intro hm
